@@ -95,14 +95,11 @@ def linkOf (lf : Str) (r : Row) : Option Key :=
     | some v => some (Key.i64 v)
     | none => (getStr r lf).map Key.str   -- u64 / f64 views: not modelled column kinds
 
-/-! ### time (`get_timestamp`: `get_i64_at(time_field) as u64`, 0 when absent) -/
+/-! ### time (`get_timestamp`: `get_i64_at(time_field)` as an i64, 0 when absent) -/
 
-def u64Max : Nat := 2 ^ 64 - 1
-def toU64 (t : Int) : Nat := (t % (2 ^ 64 : Int)).toNat
-
-def tsOf (tf : Str) (r : Row) : Nat :=
+def tsOf (tf : Str) (r : Row) : Int :=
   match getI64 r tf with
-  | some t => toU64 t
+  | some t => t
   | none => Snel.Gen.C15.missingTs   -- `unwrap_or(0)`
 
 /-! ### WHERE -/
@@ -196,7 +193,7 @@ structure Cfg where
   tyB : Str              -- `sequence.links[0].1.event`
   wh : Option Expr
 
-def Cfg.ts (c : Cfg) (r : Row) : Nat := tsOf c.timeField r
+def Cfg.ts (c : Cfg) (r : Row) : Int := tsOf c.timeField r
 def Cfg.okA (c : Cfg) (r : Row) : Bool := evalSide c.wh c.tyA r
 def Cfg.okB (c : Cfg) (r : Row) : Bool := evalSide c.wh c.tyB r
 /-- `matches_where_clause` -/
@@ -204,12 +201,12 @@ def Cfg.pairOk (c : Cfg) (a b : Row) : Bool := c.okA a && c.okB b
 
 /-! ### stable sort (`sort_by_key`) -/
 
-def insertBy {α} (key : α → Nat) (x : α) : List α → List α
+def insertBy {α} (key : α → Int) (x : α) : List α → List α
   | [] => [x]
   | y :: ys => if key x ≤ key y then x :: y :: ys else y :: insertBy key x ys
 
 /-- stable: an element stays in front of later elements with the same key -/
-def sortBy {α} (key : α → Nat) : List α → List α
+def sortBy {α} (key : α → Int) : List α → List α
   | [] => []
   | x :: xs => insertBy key x (sortBy key xs)
 
@@ -229,15 +226,15 @@ def keysOf (c : Cfg) (as bs : List Row) : List Key :=
   dedupKeys ((as ++ bs).filterMap (linkOf c.linkField))
 
 /-- contribution of one type's list to `earliest_ts`: time of its first row, when readable -/
-def firstTs (c : Cfg) : List Row → Nat
-  | [] => u64Max
+def firstTs (c : Cfg) : List Row → Int
+  | [] => Snel.Gen.C15.earliestStart
   | r :: _ => match getI64 r c.timeField with
-    | some t => toU64 t
-    | none => u64Max
+    | some t => t
+    | none => Snel.Gen.C15.earliestStart
 
 abbrev Group := List Row × List Row
 
-def earliest (c : Cfg) (g : Group) : Nat := min (firstTs c g.1) (firstTs c g.2)
+def earliest (c : Cfg) (g : Group) : Int := min (firstTs c g.1) (firstTs c g.2)
 
 /-! ### the sweeps -/
 
@@ -260,7 +257,7 @@ def followedBy (c : Cfg) (as bs : List Row) : List Pair :=
 
 /-- inner `while latest_b_ptr + 1 < len` of `match_preceded_by`: returns the latest b before
 `tsA` and the rows after it. -/
-def advanceB (c : Cfg) (tsA : Nat) (b : Row) : List Row → Row × List Row
+def advanceB (c : Cfg) (tsA : Int) (b : Row) : List Row → Row × List Row
   | [] => (b, [])
   | b' :: bs => if c.ts b' < tsA then advanceB c tsA b' bs else (b, b' :: bs)
 
@@ -274,7 +271,7 @@ def pbLoop (c : Cfg) : Nat → List Row → List Row → List Pair
       let lb := advanceB c (c.ts a) b bs
       (if c.pairOk a lb.1 then [(lb.1, a)] else []) ++ pbLoop c fuel as (lb.1 :: lb.2)
     else
-      pbLoop c fuel (a :: as) bs      -- `b_ptr += 1` (sic)
+      pbLoop c fuel as (b :: bs)      -- `a_ptr += 1` (no b precedes this a; since fix e929a74)
 
 def precededBy (c : Cfg) (as bs : List Row) : List Pair :=
   pbLoop c (as.length + bs.length) as bs
